@@ -179,12 +179,20 @@ def specObsWhy (p : Probe) (o : Obs) : String :=
 
 /-! ### the specification of one step on the logical graph -/
 
-def normProps (ps : Props) : Props := ps   -- observations arrive sorted by key
+/-- same node: same id, same label *set*, same property *map* (label and property lists are
+compared up to order: they come from a `HashSet` / `HashMap`) -/
+def nodeEqv (x y : NodeObs) : Bool :=
+  x.1 == y.1 && sameSet x.2.1 y.2.1 && sameSet x.2.2 y.2.2
 
 def nodesSame (a b : List NodeObs) : Bool :=
-  sameSet (a.map (fun n => (n.1, n.2.1, n.2.2))) (b.map (fun n => (n.1, n.2.1, n.2.2)))
+  a.all (fun x => b.any (fun y => nodeEqv x y)) && b.all (fun y => a.any (fun x => nodeEqv x y))
 
-def edgesSame (a b : List EdgeObs) : Bool := sameSet a b
+def edgeEqv (x y : EdgeObs) : Bool :=
+  eId x == eId y && eSrc x == eSrc y && eTgt x == eTgt y && eTy x == eTy y
+    && sameSet (eProps x) (eProps y)
+
+def edgesSame (a b : List EdgeObs) : Bool :=
+  a.all (fun x => b.any (fun y => edgeEqv x y)) && b.all (fun y => a.any (fun x => edgeEqv x y))
 
 def setProp (ps : Props) (k v : Nat) : Props :=
   let rest := ps.filter (fun q => q.1 != k)
@@ -194,66 +202,76 @@ def setProp (ps : Props) (k v : Nat) : Props :=
 def insLabel (ls : List Nat) (l : Nat) : List Nat :=
   if ls.contains l then ls else (ls.filter (· < l)) ++ l :: (ls.filter (l < ·))
 
+/-- nothing changed in the logical graph -/
+def specSame (pre post : Obs) : Bool :=
+  nodesSame post.nodes pre.nodes && edgesSame post.edges pre.edges
+
+/-- a node was added under an id that was not in use, with exactly this label and properties -/
+def specNewNode (pre : Obs) (ret : Ret) (post : Obs) (l : Nat) (ps : Props) : Bool :=
+  match ret with
+  | .id i => !(pre.nodes.map (·.1)).contains i && nodesSame post.nodes ((i, [l], ps) :: pre.nodes)
+             && edgesSame post.edges pre.edges
+  | _ => false
+
+/-- a relationship was added under an id that was not in use — or refused because an endpoint
+does not exist -/
+def specNewEdge (pre : Obs) (ret : Ret) (post : Obs) (a b ty : Nat) (ps : Props) : Bool :=
+  if !(pre.nodes.map (·.1)).contains a then ret == .err 3 && specSame pre post
+  else if !(pre.nodes.map (·.1)).contains b then ret == .err 4 && specSame pre post
+  else match ret with
+    | .id i => !(pre.edges.map eId).contains i && nodesSame post.nodes pre.nodes
+               && edgesSame post.edges ((i, a, b, ty, ps) :: pre.edges)
+    | _ => false
+
+def specUpdNode (pre post : Obs) (n : Nat) (f : NodeObs → NodeObs) : Bool :=
+  nodesSame post.nodes (pre.nodes.map (fun x => if x.1 == n then f x else x))
+    && edgesSame post.edges pre.edges
+
+def specUpdEdge (pre post : Obs) (e : Nat) (f : EdgeObs → EdgeObs) : Bool :=
+  nodesSame post.nodes pre.nodes
+    && edgesSame post.edges (pre.edges.map (fun x => if eId x == e then f x else x))
+
 /-- `post` is the logical graph `pre` transformed by `op` with result `ret`; ids are chosen
 by the implementation, the specification only demands that a new id was not live -/
 def specStep (pre : Obs) (op : Op) (ret : Ret) (post : Obs) : Bool :=
   let nid := pre.nodes.map (·.1)
   let eid := pre.edges.map eId
-  let newNode (l : Nat) (ps : Props) : Bool :=
-    match ret with
-    | .id i => !nid.contains i && nodesSame post.nodes ((i, [l], ps) :: pre.nodes)
-               && edgesSame post.edges pre.edges
-    | _ => false
-  let newEdge (a b ty : Nat) (ps : Props) : Bool :=
-    if !nid.contains a then ret == .err 3 && nodesSame post.nodes pre.nodes && edgesSame post.edges pre.edges
-    else if !nid.contains b then ret == .err 4 && nodesSame post.nodes pre.nodes && edgesSame post.edges pre.edges
-    else match ret with
-      | .id i => !eid.contains i && nodesSame post.nodes pre.nodes
-                 && edgesSame post.edges ((i, a, b, ty, ps) :: pre.edges)
-      | _ => false
-  let same : Bool := nodesSame post.nodes pre.nodes && edgesSame post.edges pre.edges
-  let updNodeObs (n : Nat) (f : NodeObs → NodeObs) : Bool :=
-    nodesSame post.nodes (pre.nodes.map (fun x => if x.1 == n then f x else x))
-      && edgesSame post.edges pre.edges
-  let updEdgeObs (e : Nat) (f : EdgeObs → EdgeObs) : Bool :=
-    nodesSame post.nodes pre.nodes
-      && edgesSame post.edges (pre.edges.map (fun x => if eId x == e then f x else x))
   match op with
-  | .mkN l => newNode l []
-  | .mkNS l => newNode l []
-  | .mkNP l k v => newNode l [(k, v)]
-  | .mkE a b ty => newEdge a b ty []
-  | .mkES a b ty => newEdge a b ty []
-  | .mkEP a b ty k v => newEdge a b ty [(k, v)]
+  | .mkN l => specNewNode pre ret post l []
+  | .mkNS l => specNewNode pre ret post l []
+  | .mkNP l k v => specNewNode pre ret post l [(k, v)]
+  | .mkE a b ty => specNewEdge pre ret post a b ty []
+  | .mkES a b ty => specNewEdge pre ret post a b ty []
+  | .mkEP a b ty k v => specNewEdge pre ret post a b ty [(k, v)]
   | .delE e =>
     if eid.contains e then
       ret == .ok && nodesSame post.nodes pre.nodes
         && edgesSame post.edges (pre.edges.filter (fun x => eId x != e))
-    else ret == .err 2 && same
+    else ret == .err 2 && specSame pre post
   | .delN n =>
     if nid.contains n then
       ret == .ok && nodesSame post.nodes (pre.nodes.filter (fun x => x.1 != n))
         && edgesSame post.edges (pre.edges.filter (fun x => eSrc x != n && eTgt x != n))
-    else ret == .err 1 && same
+    else ret == .err 1 && specSame pre post
   | .addL n l =>
-    if nid.contains n then ret == .ok && updNodeObs n (fun x => (x.1, insLabel x.2.1 l, x.2.2))
-    else ret == .err 1 && same
+    if nid.contains n then ret == .ok && specUpdNode pre post n (fun x => (x.1, insLabel x.2.1 l, x.2.2))
+    else ret == .err 1 && specSame pre post
   | .rmL n l =>
     if nid.contains n then
-      (ret == .ok || ret == .no) && updNodeObs n (fun x => (x.1, x.2.1.filter (· != l), x.2.2))
-    else ret == .err 1 && same
+      (ret == .ok || ret == .no) && specUpdNode pre post n (fun x => (x.1, x.2.1.filter (· != l), x.2.2))
+    else ret == .err 1 && specSame pre post
   | .setNP n k v =>
-    if nid.contains n then ret == .ok && updNodeObs n (fun x => (x.1, x.2.1, setProp x.2.2 k v))
+    if nid.contains n then ret == .ok && specUpdNode pre post n (fun x => (x.1, x.2.1, setProp x.2.2 k v))
     else true       -- outside the precondition: not specified
-  | .rmNP n k => updNodeObs n (fun x => (x.1, x.2.1, x.2.2.filter (fun q => q.1 != k)))
+  | .rmNP n k => specUpdNode pre post n (fun x => (x.1, x.2.1, x.2.2.filter (fun q => q.1 != k)))
   | .setEP e k v =>
     if eid.contains e then
-      ret == .ok && updEdgeObs e (fun x => (x.1, x.2.1, x.2.2.1, x.2.2.2.1, setProp x.2.2.2.2 k v))
+      ret == .ok && specUpdEdge pre post e (fun x => (x.1, x.2.1, x.2.2.1, x.2.2.2.1, setProp x.2.2.2.2 k v))
     else true
   | .rmEP e k =>
-    updEdgeObs e (fun x => (x.1, x.2.1, x.2.2.1, x.2.2.2.1, x.2.2.2.2.filter (fun q => q.1 != k)))
-  | .compact => ret == .ok && same
-  | .finish => ret == .ok && same && !post.pending
+    specUpdEdge pre post e (fun x => (x.1, x.2.1, x.2.2.1, x.2.2.2.1, x.2.2.2.2.filter (fun q => q.1 != k)))
+  | .compact => ret == .ok && specSame pre post
+  | .finish => ret == .ok && specSame pre post && !post.pending
   | .clear => ret == .ok && post.nodes.isEmpty && post.edges.isEmpty
 
 end SgModel.Store
